@@ -144,7 +144,7 @@ class FakeNumpy:
     @staticmethod
     def arange(*a, **k):
         if all(isinstance(x, int) for x in a) and 'dtype' not in k:
-            return list(range(*a))
+            return A.IntVec(range(*a))
         if len(a) == 1:
             return Arr([a[0]], None, 'int', None, {'arange': (0, a[0])}, 'arange')
         if all(isinstance(x, (int, float)) for x in a):
@@ -411,7 +411,7 @@ class FakeNumpy:
 
     @staticmethod
     def setdiff1d(a, b):
-        return [x for x in a if x not in list(b)]
+        return A.IntVec(x for x in a if x not in list(b))
 
     @staticmethod
     def where(cond, *a):
